@@ -60,6 +60,10 @@ ARGV_SHAPES = [
     ["-o", "{out}", "--config", "cb.toml", "--crate", "foo", "-l", "C"],
     ["--config", "cb.toml", "--crate", "foo", "-l", "C", "--output", "{out}"],
     ["--crate", "foo", "--output", "{out}", "-v", "--lang", "C", "--config", "cb.toml"],
+    # the output given twice: both pairs are output paths (neither reaches cbindgen, in whole or in
+    # part); the processed header lands in one of them
+    ["--config", "cb.toml", "-o", "{out}", "--crate", "foo", "--output", "{out2}", "-l", "C"],
+    ["-o", "{out}", "-o", "{out2}", "--crate", "foo", "-l", "C"],
 ]
 
 
@@ -76,7 +80,10 @@ def run_tool(workdir, header_path, config, argv_shape, hash_seed, fail=False, ta
             for k in sorted(config):
                 f.write('%s = "%s"\n' % (k, config[k]))
         pre = ["-c", cpath]
-    post = [a.replace("{out}", out_path) for a in ARGV_SHAPES[argv_shape]]
+    out2_path = os.path.join(workdir, "second%s-%d.h" % (tag, hash_seed))
+    if os.path.exists(out2_path):
+        os.remove(out2_path)
+    post = [a.replace("{out}", out_path).replace("{out2}", out2_path) for a in ARGV_SHAPES[argv_shape]]
     env = dict(os.environ)
     env.update({
         "PATH": FAKEBIN + os.pathsep + env.get("PATH", ""),
@@ -92,6 +99,9 @@ def run_tool(workdir, header_path, config, argv_shape, hash_seed, fail=False, ta
         with open(argv_log) as f:
             seen = f.read().split("\n")[:-1]
     output = None
+    if not os.path.exists(out_path) and os.path.exists(out2_path):
+        # "last one wins" would be as good a reading of a repeated output argument as "first one wins"
+        out_path = out2_path
     if os.path.exists(out_path):
         with open(out_path, "rb") as f:
             output = f.read()
@@ -160,6 +170,16 @@ def eval_case(case, keep_dir=None):
         stats["cc_runs"] = 1
         if cc.returncode != 0:
             return {"violation": {"class": "bindgen.c_compile", "site": "cc -std=c99", "msg": "the processed header is rejected by the C compiler: " + " | ".join(cc.stdout.splitlines()[:4])}, "stats": stats}
+        # the C-visible layout of every CGlue container and object is the one the model implies
+        # (instance, context, temporaries that really exist; no zero-sized leftovers, nothing cut)
+        lp = os.path.join(d, "layout.c")
+        with open(lp, "w") as f:
+            f.write('#include <string.h>\n#include "%s"\n%s\nint main(void) { return 0; }\n' % (first["out_path"], hdrgen.layout_asserts(model)))
+        cc = subprocess.run(["cc", "-std=c99", "-fsyntax-only", "-Wno-unused", lp], stdout=subprocess.PIPE, stderr=subprocess.STDOUT, text=True)
+        stats["cc_runs"] += 1
+        if cc.returncode != 0:
+            errs = [l for l in cc.stdout.splitlines() if "error" in l]
+            return {"violation": {"class": "bindgen.c_layout", "site": "container/object layout", "msg": "a CGlue structure of the processed header does not have the fields the input describes: " + " | ".join(errs[:3])}, "stats": stats}
         # foreign declarations preserved, unmodified, in order
         before = foreign_order(header, foreign)
         after = foreign_order(text, foreign)
@@ -231,9 +251,21 @@ def minimise_case(case, cls):
         changed = False
         m = cur["model"]
         cands = []
+        for gi in range(len(m.get("groups", []))):
+            cands.append(dict(m, groups=m["groups"][:gi] + m["groups"][gi + 1:]))
         for ti in range(len(m["traits"])):
             if len(m["traits"]) > 1:
-                cands.append(dict(m, traits=m["traits"][:ti] + m["traits"][ti + 1:]))
+                gone = m["traits"][ti]["name"]
+                groups = [dict(g, traits=[x for x in g["traits"] if x != gone]) for g in m.get("groups", [])]
+                cands.append(dict(m, traits=m["traits"][:ti] + m["traits"][ti + 1:], groups=[g for g in groups if g["traits"]]))
+        for gi, g in enumerate(m.get("groups", [])):
+            for key in ("traits", "conts", "ctxs"):
+                for xi in range(len(g[key])):
+                    if len(g[key]) > 1:
+                        ng = dict(g, **{key: g[key][:xi] + g[key][xi + 1:]})
+                        cands.append(dict(m, groups=m["groups"][:gi] + [ng] + m["groups"][gi + 1:]))
+            if g.get("clone"):
+                cands.append(dict(m, groups=m["groups"][:gi] + [dict(g, clone=False)] + m["groups"][gi + 1:]))
         for ti, t in enumerate(m["traits"]):
             for ci in range(len(t["conts"])):
                 if len(t["conts"]) > 1:
@@ -243,9 +275,18 @@ def minimise_case(case, cls):
                 if len(t["funcs"]) > 1:
                     nt = dict(t, funcs=t["funcs"][:fi] + t["funcs"][fi + 1:])
                     cands.append(dict(m, traits=m["traits"][:ti] + [nt] + m["traits"][ti + 1:]))
+            for fi, f in enumerate(t["funcs"]):
+                for ai in range(len(f[2])):
+                    nf = (f[0], f[1], f[2][:ai] + f[2][ai + 1:], f[3])
+                    nt = dict(t, funcs=t["funcs"][:fi] + [nf] + t["funcs"][fi + 1:])
+                    cands.append(dict(m, traits=m["traits"][:ti] + [nt] + m["traits"][ti + 1:]))
+            if t.get("rettmp_real"):
+                cands.append(dict(m, traits=m["traits"][:ti] + [dict(t, rettmp_real=False)] + m["traits"][ti + 1:]))
         for ci in range(1, len(m["contexts"])):
-            cands.append(dict(m, contexts=m["contexts"][:ci] + m["contexts"][ci + 1:]))
-        for flag in ("leftover", "generic_objs", "foreign_early", "foreign_names", "guard", "group"):
+            gone = m["contexts"][ci]
+            if not any(gone in g["ctxs"] for g in m.get("groups", [])):
+                cands.append(dict(m, contexts=m["contexts"][:ci] + m["contexts"][ci + 1:]))
+        for flag in ("leftover", "generic_objs", "foreign_early", "foreign_names", "guard", "no_context"):
             if m.get(flag):
                 cands.append(dict(m, **{flag: False}))
         for c in cands:
